@@ -423,7 +423,8 @@ class Cycles(FetchStream):
         if o[0] == "badcase" or not isinstance(o[0], list):
             return str(o[0])
         rs = self.reasons(case)
-        dom = "D07" if not rs else "out:" + "+".join(sorted(rs))[:60]
+        out = rs - self.ALLOWED_OUTSIDE
+        dom = ("D07" + ("+further-occurrence" if rs & self.ALLOWED_OUTSIDE else "")) if not out else "out:" + "+".join(sorted(out))[:60]
         first = "ok" if o[0][0] == "ok" else "err:" + (o[0][2] or o[0][1])
         return "%s:%s:k%d" % (dom, first, self.nk(case))
 
